@@ -56,7 +56,7 @@ theorem bcRev_eq_np : ∀ (a b : List Nat), (bcRev a b).toOption = npBcRev a b
               by_cases hx : x = 1
               · exact hx
               · exact absurd ⟨hax, hx⟩ h2
-            simp [hax, h1, hx]
+            simp [h1, hx]
         rw [this]
         cases npBcRev xs ys <;> rfl
 
@@ -204,7 +204,7 @@ theorem reduceFrom_eq (dims : List Nat) (keep : Bool) :
     · cases keep <;> simp [hm, ih']
     · simp [hm, ih']
 
-theorem normAxis_mod (nd : Nat) (a : Int) (k : Nat) (hnd : 0 < nd) (h : npNormAxis nd a = some k) :
+theorem normAxis_mod (nd : Nat) (a : Int) (k : Nat) (_hnd : 0 < nd) (h : npNormAxis nd a = some k) :
     (a % (nd : Int)).toNat = k := by
   unfold npNormAxis at h
   split at h
